@@ -67,6 +67,8 @@ def record(workdir):
     if os.path.exists(cache) and os.path.exists(info):
         meta = json.load(open(info))
         meta["mbs_events"] = open(cache_m).read().splitlines() if os.path.exists(cache_m) else []
+        ct = os.path.join(root, "events_tok.ndjson")
+        meta["tok_events"] = open(ct).read().splitlines() if os.path.exists(ct) else []
         return open(cache).read().splitlines(), meta
     exes = sorted(glob.glob(os.path.join(root, "t_*")))
     rundir = os.path.join(workdir, "testrun")
@@ -78,7 +80,8 @@ def record(workdir):
         d = os.path.join(rundir, name + ".d")
         os.makedirs(d, exist_ok=True)
         mlog = os.path.join(rundir, name + ".mbs.ndjson")
-        env = dict(os.environ, VERIF_WRAPLOG=log, VERIF_WRAPLOG_MBS=mlog)
+        tlog = os.path.join(rundir, name + ".tok.ndjson")
+        env = dict(os.environ, VERIF_WRAPLOG=log, VERIF_WRAPLOG_MBS=mlog, VERIF_WRAPLOG_TOK=tlog)
         try:
             p = subprocess.run([exe], cwd=d, env=env, stdin=subprocess.DEVNULL, stdout=subprocess.DEVNULL, stderr=subprocess.DEVNULL, timeout=120)
             rc = p.returncode
@@ -86,14 +89,26 @@ def record(workdir):
             rc = -999
         lines = open(log).read().splitlines() if os.path.exists(log) else []
         mlines = open(mlog).read().splitlines() if os.path.exists(mlog) else []
-        return name, rc, lines, mlines
+        tlines = open(tlog).read().splitlines() if os.path.exists(tlog) else []
+        return name, rc, lines, mlines, tlines
     with ThreadPoolExecutor(max_workers=16) as ex:
         outs = list(ex.map(one, exes))
     events, origin, skipped, rcs = [], {}, 0, {}
     eid = 0
     mbs_events, mid = [], 0
-    for name, rc, lines, mlines in outs:
+    tok_events, sid_base = [], 0
+    for name, rc, lines, mlines, tlines in outs:
         rcs[name] = rc
+        top = 0
+        for ln in tlines:          # session ids are made unique across programs (ids = sid * 1000 + call index)
+            if ln.startswith('{"e"') and ln.endswith("}"):
+                e = json.loads(ln)
+                top = max(top, e["sid"])
+                e["id"] = (e["sid"] + sid_base) * 1000 + e["id"] % 1000
+                e["sid"] += sid_base
+                e["prog"] = name
+                tok_events.append(json.dumps(e, separators=(",", ":")))
+        sid_base += top
         for ln in mlines:
             if ln.startswith('{"id"') and ln.endswith("}"):
                 mid += 1
@@ -111,6 +126,8 @@ def record(workdir):
                 nonzero_exit=sorted(n for n, r in rcs.items() if r != 0), build=json.load(open(os.path.join(root, "build.json"))))
     open(cache, "w").write("\n".join(events) + "\n")
     open(cache_m, "w").write("\n".join(mbs_events) + ("\n" if mbs_events else ""))
+    open(os.path.join(root, "events_tok.ndjson"), "w").write("\n".join(tok_events) + ("\n" if tok_events else ""))
+    meta["tok_events"] = tok_events
     json.dump(meta, open(info, "w"))
     meta["mbs_events"] = mbs_events
     return events, meta
@@ -138,6 +155,25 @@ def run_props(prop, tier, seed, workdir, res):
     res.coverage["traces_validated_against_impl"] = res.coverage.get("traces_validated_against_impl", 0) + n
     res.coverage["rule"] += ("; plus the calls the repository's own %d test programs make to the copy / fill / transform entry points, recorded through ld --wrap "
                              "(harness/hwrap.c) and judged by TraceArena.tla (%d events; %d calls with sizes beyond the recording window skipped)" % (meta["programs"], n, meta["skipped_calls"]))
+    return res
+
+
+def run_tok(res, workdir):
+    """C14: the tokenising sessions of the repository's tests, judged by TraceTok.tla"""
+    events, meta = record(workdir)
+    ev = meta["tok_events"]
+    if not ev:
+        return res
+    n, bad, st = tlc.validate("TraceTok", os.path.join(tlc.SPEC, "TraceTok.cfg"), ev, workdir, jvms=1)
+    byid = {json.loads(e)["id"]: json.loads(e) for e in ev}
+    for bd in bad:
+        e = byid[bd["i"]]
+        res.violations.append(dict(desc="tokenizer call #%d of a session in the repository's %s (delim=%s): %s" % (bd["i"] % 1000, e.get("prog"), e.get("delim"), bd["why"]),
+                                   cluster="testtrace-tok|%s" % bd["why"], slug="tt-tok-%d" % bd["i"], dev=bd.get("dev", ""),
+                                   replay=dict(kind="testtrace-tok", session=[json.loads(x) for x in ev if json.loads(x)["sid"] == e["sid"]], why=bd["why"])))
+    res.coverage["testsuite_tokenizer_events"] = n
+    res.coverage["evaluations"] = res.coverage.get("evaluations", 0) + n
+    res.coverage["rule"] += "; plus %d tokenizer events (sessions) recorded from the repository's own test programs (harness/hwrap.c), judged by TraceTok.tla" % n
     return res
 
 
